@@ -75,6 +75,12 @@ fn header(nref: usize) -> sam::Header {
 
 /// the uncompressed BAM stream: (bytes, header length, [start, end) of every record in it)
 fn raw_stream(rng: &mut Rng) -> io::Result<(Vec<u8>, usize, Vec<(usize, usize)>)> {
+    raw_stream_mode(rng, 0)
+}
+
+/// mode 0: as the older kinds draw it; 1: an unplaced tail is forced (some of its reads NOT flagged
+/// unmapped); 2: no placed read at all
+fn raw_stream_mode(rng: &mut Rng, mode: u8) -> io::Result<(Vec<u8>, usize, Vec<(usize, usize)>)> {
     let nref = rng.range(1, 3) as usize;
     let h = header(nref);
     let mut w = bam::io::Writer::from(Vec::new());
@@ -85,6 +91,11 @@ fn raw_stream(rng: &mut Rng) -> io::Result<(Vec<u8>, usize, Vec<(usize, usize)>)
     let mut rid = 0usize;
     let mut pos = 1u64;
     let unplaced_from = if rng.chance(1, 3) { n.saturating_sub(rng.below(4) as usize) } else { n };
+    let unplaced_from = match mode {
+        0 => unplaced_from,
+        1 => n.saturating_sub(rng.range(1, 6) as usize),
+        _ => 0,
+    };
     for i in 0..n {
         let mut b = RecordBuf::default();
         *b.name_mut() = Some(i.to_string().into());
@@ -112,7 +123,7 @@ fn raw_stream(rng: &mut Rng) -> io::Result<(Vec<u8>, usize, Vec<(usize, usize)>)
             *b.cigar_mut() = ops.into_iter().collect::<Cigar>();
             *b.sequence_mut() = Sequence::from(rng.bytes(read_len).iter().map(|x| b"ACGT"[(x & 3) as usize]).collect::<Vec<u8>>());
         } else {
-            *b.flags_mut() = Flags::from(4u16);
+            *b.flags_mut() = Flags::from(if mode != 0 && rng.chance(1, 6) { 0u16 } else { 4u16 });
             *b.sequence_mut() = Sequence::from(rng.bytes(len).iter().map(|x| b"ACGT"[(x & 3) as usize]).collect::<Vec<u8>>());
         }
         let start = w.get_ref().len();
@@ -295,6 +306,10 @@ pub fn generate(rng: &mut Rng, tier: &str, w: &mut CaseWriter) {
     let n = if tier == "thorough" { 1500 } else { 90 };
     for _ in 0..n {
         gen_bamx(rng, w);
+    }
+    let n = if tier == "thorough" { 1200 } else { 80 };
+    for _ in 0..n {
+        gen_bamu(rng, w);
     }
 }
 
@@ -660,6 +675,325 @@ fn run_bamx(c: &Case) -> Obs {
     }
 }
 
+// ---------------------------------------------------------------------------------------------
+// kind `bamu`: query_unmapped over the BYTES, mixed with region queries on ONE reader
+// (NV.Index.ByteUnmapped.byte_bam_ops_session)
+//
+//   bamu  hl file frames lin|bin ms d nref mut ops
+//         as bamx; ops = U | k:s:e ; ...   U = Reader::query_unmapped(&index) drained,
+//         k:s:e = Reader::query(header, index, region r<k>:s-e) drained; all on the reader that ran
+//         the indexing loop, one after the other
+//         obs = IxErr | Err:<kind> | S<scan>|U<len>-<hash>,...|Q<len>-<hash>,...|...
+//   oracle (mut = 0), unmapped answer: only records flagged unmapped (flag bit 4 of the record
+//   bytes); strictly increasing file order (nothing twice); when the records without reference
+//   id / POS come last in the file: the unplaced records in the answer == the unplaced records of
+//   the file that are flagged unmapped; the same answers with the index written to BAI / CSI bytes
+//   and read back.  Region answers as for bamx.
+
+fn gen_bamu(rng: &mut Rng, w: &mut CaseWriter) {
+    let mut r2 = rng.fork();
+    let mutate = rng.chance(1, 8);
+    let mode = match rng.below(8) {
+        0 => 0u8,
+        1 => 2,
+        _ => 1,
+    };
+    let built = guarded(AssertUnwindSafe(move || -> io::Result<_> {
+        let (mut raw, hl, spans) = raw_stream_mode(&mut r2, mode)?;
+        let m = if mutate { patch_stream(&mut r2, &mut raw, &spans) } else { false };
+        let file = bgzf_file(&mut r2, &raw)?;
+        let frames = frame_table(&file)?;
+        Ok((raw, hl, file, frames, m))
+    }));
+    let (raw, hl, file, frames, m) = match built {
+        Outcome::Done(Ok(x)) => x,
+        _ => return,
+    };
+    let text_len = u32::from_le_bytes([raw[4], raw[5], raw[6], raw[7]]) as usize;
+    let nref = u32::from_le_bytes([raw[8 + text_len], raw[9 + text_len], raw[10 + text_len], raw[11 + text_len]]) as u64;
+    let (kd, ms, d) = if rng.chance(1, 2) {
+        ("lin", 14u64, 5u64)
+    } else {
+        let geos = [(14u64, 5u64), (14, 6), (12, 5), (16, 4), (14, 3), (10, 6), (15, 5)];
+        let g = geos[rng.below(geos.len() as u64) as usize];
+        ("bin", g.0, g.1)
+    };
+    let maxp = ((1u64 << (ms + 3 * d)) - 1).min((1 << 29) - 1);
+    let mut ops: Vec<String> = Vec::new();
+    let nops = rng.range(1, 5);
+    let mut has_u = false;
+    for i in 0..nops {
+        if rng.chance(1, 2) || (i + 1 == nops && !has_u) {
+            has_u = true;
+            ops.push("U".into());
+        } else {
+            let k = rng.below(nref.max(1));
+            let o = |x: Option<u64>| x.map(|v| v.to_string()).unwrap_or("-".into());
+            let (s, e) = match rng.below(4) {
+                0 => (None, None),
+                1 => (Some(rng.range(1, maxp)), None),
+                _ => {
+                    let p = rng.range(1, 3_200_000.min(maxp));
+                    (Some(p), Some((p + match rng.below(3) { 0 => 0, 1 => rng.below(20000), _ => rng.below(6_000_000) }).min(maxp)))
+                }
+            };
+            ops.push(format!("{k}:{}:{}", o(s), o(e)));
+        }
+    }
+    w.push(
+        "bamu",
+        vec![
+            hl.to_string(),
+            hex(&file),
+            fmt_frames(&frames),
+            kd.to_string(),
+            ms.to_string(),
+            d.to_string(),
+            nref.to_string(),
+            if m { "1".into() } else { "0".into() },
+            ops.join(";"),
+        ],
+    );
+}
+
+type SOp = Option<(u64, Option<u64>, Option<u64>)>; // None = query_unmapped
+
+fn run_ops<R, I>(reader: &mut bam::io::Reader<R>, header: &sam::Header, index: &I, ops: &[SOp]) -> Answers
+where
+    R: bgzf::io::BufRead + bgzf::io::Seek,
+    I: BinningIndex,
+{
+    ops.iter()
+        .map(|op| match op {
+            None => {
+                let it = reader.query_unmapped(index)?;
+                it.map(|r| r.map(|r| rec_name(&r))).collect()
+            }
+            Some(q) => region_queries(reader, header, index, std::slice::from_ref(q)).pop().unwrap(),
+        })
+        .collect()
+}
+
+fn run_bamu(c: &Case) -> Obs {
+    let hl = c.u(0) as usize;
+    let file = unhex(&c.args[1]);
+    let lin = c.args[3] == "lin";
+    let (ms, d) = (c.u(4) as u8, c.u(5) as u8);
+    let mutated = c.args[7] == "1";
+    let ops: Vec<SOp> = c.args[8]
+        .split(';')
+        .map(|q| {
+            if q == "U" {
+                return None;
+            }
+            let f: Vec<&str> = q.split(':').collect();
+            let o = |x: &str| if x == "-" { None } else { Some(x.parse::<u64>().unwrap()) };
+            Some((f[0].parse().unwrap(), o(f[1]), o(f[2])))
+        })
+        .collect();
+    let (frames, raw) = match guarded(AssertUnwindSafe(|| frame_table(&file))) {
+        Outcome::Done(Ok(fs)) => {
+            let raw: Vec<u8> = fs.iter().flat_map(|(_, d)| d.iter().copied()).collect();
+            (fs, raw)
+        }
+        _ => return Obs::fail("-", "harness-bamu-frame-table", ""),
+    };
+    if fmt_frames(&frames) != c.args[2] {
+        return Obs::fail("-", "harness-bamu-frames-differ-from-case", "");
+    }
+    let mut bodies: Vec<&[u8]> = Vec::new();
+    let mut at = hl;
+    while at + 4 <= raw.len() {
+        let n = u32::from_le_bytes([raw[at], raw[at + 1], raw[at + 2], raw[at + 3]]) as usize;
+        if n == 0 || at + 4 + n > raw.len() {
+            break;
+        }
+        bodies.push(&raw[at + 4..at + 4 + n]);
+        at += 4 + n;
+    }
+    let desc = |name: &str| -> String {
+        match name.parse::<usize>().ok().and_then(|i| bodies.get(i).copied()) {
+            Some(b) => format!("{}-{}", b.len(), hash_bytes(b)),
+            None => "?".into(),
+        }
+    };
+    let r = guarded(AssertUnwindSafe(|| -> io::Result<Option<(Scan, Answers, io::Result<Answers>)>> {
+        let mut reader = bam::io::Reader::new(Cursor::new(&file[..]));
+        let header = reader.read_header()?;
+        let nref = header.reference_sequences().len();
+        if lin {
+            match index_loop(&mut reader, Indexer::<LinearIndex>::default(), nref)? {
+                IxOut::Refused => Ok(None),
+                IxOut::Built(sc, index) => {
+                    let a = run_ops(&mut reader, &header, &index, &ops);
+                    let a2 = (|| -> io::Result<Answers> {
+                        let mut w = bam::bai::io::Writer::new(Vec::new());
+                        w.write_index(&index)?;
+                        let buf = w.into_inner();
+                        let index2 = bam::bai::io::Reader::new(&buf[..]).read_index()?;
+                        Ok(run_ops(&mut reader, &header, &index2, &ops))
+                    })();
+                    Ok(Some((sc, a, a2)))
+                }
+            }
+        } else {
+            match index_loop(&mut reader, Indexer::<csi::binning_index::index::reference_sequence::index::BinnedIndex>::new(ms, d), nref)? {
+                IxOut::Refused => Ok(None),
+                IxOut::Built(sc, index) => {
+                    let a = run_ops(&mut reader, &header, &index, &ops);
+                    let a2 = (|| -> io::Result<Answers> {
+                        let mut w = csi::io::Writer::new(Vec::new());
+                        w.write_index(&index)?;
+                        let buf = w.into_inner().finish()?;
+                        let index2 = csi::io::Reader::new(&buf[..]).read_index()?;
+                        Ok(run_ops(&mut reader, &header, &index2, &ops))
+                    })();
+                    Ok(Some((sc, a, a2)))
+                }
+            }
+        }
+    }));
+    let label = if lin { "bai" } else { "csi" };
+    let maxq = (1u64 << (u64::from(ms) + 3 * u64::from(d))) - 1;
+    match r {
+        Outcome::Done(Ok(None)) => {
+            if mutated {
+                Obs { obs: "IxErr".into(), verdict: "skip".into(), nontrivial: false }
+            } else {
+                Obs::fail("IxErr", &format!("bamu-{label}-index-build-fails"), "")
+            }
+        }
+        Outcome::Done(Ok(Some((sc, answers, via_file)))) => {
+            let mut obs = String::from("S");
+            obs.push_str(&sc.iter().map(|(a, b, n)| format!("{a}-{b}-{}", desc(n))).collect::<Vec<_>>().join(","));
+            let mut verdict: Result<(), (String, String)> = Ok(());
+            let mut nontrivial = false;
+            let spans: Vec<Option<(i64, i64, i64)>> = bodies.iter().map(|b| body_span(b)).collect();
+            let flagged: Vec<bool> = bodies.iter().map(|b| b.len() >= 16 && (b[14] & 4) != 0).collect();
+            let mutated = mutated || spans.iter().any(|sp| sp.map(|x| x.2 > maxq as i64).unwrap_or(false));
+            // the records without an alignment context come last
+            let first_unplaced = spans.iter().position(|s| s.is_none()).unwrap_or(spans.len());
+            let unplaced_last = spans[first_unplaced..].iter().all(|s| s.is_none());
+            let want_unplaced: Vec<usize> = (0..bodies.len()).filter(|i| spans[*i].is_none() && flagged[*i]).collect();
+            // the statement's demands on one unmapped answer: (class, detail) of the first one it misses
+            let check_u = |names: &Vec<String>| -> Option<(&'static str, String)> {
+                let idx: Vec<usize> = names.iter().filter_map(|n| n.parse::<usize>().ok()).collect();
+                let got_unplaced: Vec<usize> = idx.iter().copied().filter(|i| spans.get(*i).map(|s| s.is_none()).unwrap_or(false)).collect();
+                if idx.len() != names.len() || idx.iter().any(|i| *i >= bodies.len()) {
+                    Some(("returns-unknown-record", format!("{names:?}")))
+                } else if idx.iter().any(|i| !flagged[*i]) {
+                    Some(("returns-read-not-flagged-unmapped", format!("{names:?}")))
+                } else if idx.windows(2).any(|w| w[0] >= w[1]) {
+                    Some(("order-or-duplicate", format!("{names:?}")))
+                } else if unplaced_last && got_unplaced != want_unplaced {
+                    let cls = if want_unplaced.iter().any(|i| !got_unplaced.contains(i)) { "misses-unplaced-unmapped-read" } else { "extra-unplaced-read" };
+                    Some((cls, format!("want {want_unplaced:?} got {got_unplaced:?}")))
+                } else {
+                    None
+                }
+            };
+            // "used in memory or after being written to and read from an index file": region answers
+            // must be the in-memory ones; an unmapped answer must meet the statement's demands again
+            // (a CSI file stores other per-bin loffsets than the in-memory index holds, so the seek
+            // position and with it the PLACED reads flagged unmapped in the answer may differ)
+            let via: Result<(), (String, String)> = match &via_file {
+                Ok(a2) => {
+                    let mut r = Ok(());
+                    for ((op, x), y) in ops.iter().zip(&answers).zip(a2) {
+                        let cx = match x { Ok(n) => n.join(","), Err(e) => format!("Err:{}", errkind(e)) };
+                        let cy = match y { Ok(n) => n.join(","), Err(e) => format!("Err:{}", errkind(e)) };
+                        match (op, y) {
+                            (None, Ok(names)) => {
+                                if let Some((cls, det)) = check_u(names) {
+                                    r = Err((format!("bamu-{label}-unmapped-{cls}-with-index-read-back-from-file"), det));
+                                    break;
+                                }
+                            }
+                            _ => {
+                                if cx != cy {
+                                    r = Err((format!("bamu-{label}-index-file-roundtrip-changes-answer"), format!("{cx:?} vs {cy:?}")));
+                                    break;
+                                }
+                            }
+                        }
+                    }
+                    r
+                }
+                Err(e) => Err((format!("bamu-{label}-index-file-write-or-read-fails"), format!("{e}"))),
+            };
+            for (oi, (op, ans)) in ops.iter().zip(&answers).enumerate() {
+                let hist = if oi == 0 { "" } else { "-after-earlier-query-on-same-reader" };
+                match op {
+                    None => {
+                        obs.push_str("|U");
+                        match ans {
+                            Ok(names) => {
+                                obs.push_str(&names.iter().map(|n| desc(n)).collect::<Vec<_>>().join(","));
+                                let idx: Vec<usize> = names.iter().filter_map(|n| n.parse::<usize>().ok()).collect();
+                                if !want_unplaced.is_empty() && first_unplaced > 0 && idx.len() < bodies.len() {
+                                    nontrivial = true;
+                                }
+                                if verdict.is_ok() && !mutated {
+                                    if let Some((cls, det)) = check_u(names) {
+                                        verdict = Err((format!("bamu-{label}-unmapped-{cls}{hist}"), det));
+                                    }
+                                }
+                            }
+                            Err(err) => {
+                                obs.push_str(&format!("Err:{}", errkind(err)));
+                                if !mutated && verdict.is_ok() {
+                                    verdict = Err((format!("bamu-{label}-unmapped-query-error{hist}"), format!("{err}")));
+                                }
+                            }
+                        }
+                    }
+                    Some((k, s, e)) => {
+                        obs.push_str("|Q");
+                        match ans {
+                            Ok(names) => {
+                                obs.push_str(&names.iter().map(|n| desc(n)).collect::<Vec<_>>().join(","));
+                                let lo = s.unwrap_or(1) as i64;
+                                let hi = e.map(|x| x as i64).unwrap_or(i64::MAX);
+                                let want: Vec<String> = spans
+                                    .iter()
+                                    .enumerate()
+                                    .filter(|(_, sp)| sp.map(|(rid, rs, re)| rid == *k as i64 && rs <= hi && lo <= re).unwrap_or(false))
+                                    .map(|(i, _)| i.to_string())
+                                    .collect();
+                                if *names != want && verdict.is_ok() && !mutated {
+                                    let cls = if want.iter().any(|i| !names.contains(i)) {
+                                        "missing-record"
+                                    } else if names.iter().any(|i| !want.contains(i)) {
+                                        "extra-record"
+                                    } else {
+                                        "order-or-duplicate"
+                                    };
+                                    verdict = Err((format!("bamu-{label}-region-{cls}{hist}"), format!("region r{k}:{s:?}-{e:?} scan={want:?} query={names:?}")));
+                                }
+                            }
+                            Err(err) => {
+                                obs.push_str(&format!("Err:{}", errkind(err)));
+                                if !mutated && verdict.is_ok() {
+                                    verdict = Err((format!("bamu-{label}-region-query-error{hist}"), format!("region r{k}:{s:?}-{e:?}: {err}")));
+                                }
+                            }
+                        }
+                    }
+                }
+            }
+            if verdict.is_ok() && !mutated {
+                verdict = via;
+            }
+            if mutated && verdict.is_ok() {
+                return Obs { obs, verdict: "skip".into(), nontrivial: false };
+            }
+            Obs::ok(obs, nontrivial).with_verdict(verdict)
+        }
+        Outcome::Done(Err(e)) => Obs::fail(format!("Err:{}", errkind(&e)), "bamu-scan-error", format!("{e}")),
+        Outcome::Panicked(m) => Obs::fail("Panic", "bamu-panic", m),
+    }
+}
+
 fn run_bamb(c: &Case) -> Obs {
     let hl = c.u(0) as usize;
     let file = unhex(&c.args[1]);
@@ -779,6 +1113,7 @@ pub fn run(c: &Case) -> Option<Obs> {
     match c.kind.as_str() {
         "bamb" => Some(run_bamb(c)),
         "bamx" => Some(run_bamx(c)),
+        "bamu" => Some(run_bamu(c)),
         _ => None,
     }
 }
